@@ -142,7 +142,7 @@ def wellFormed (k hp sp : Nat) (names : List NameInfo) (srvs : List (Bytes × Se
     (loaded : Bool) : Bool :=
   decide (1 ≤ k ∧ k ≤ 64 ∧ hp < 65536 ∧ sp < 65536) &&
   (match names with | x :: _ => x.str.isEmpty | [] => false) &&
-  decide (names.length ≤ 16) && decide (srvs.length ≤ 8) && decide (pols.length ≤ 8) &&
+  decide (names.length ≤ 160) && decide (srvs.length ≤ 8) && decide (pols.length ≤ 8) &&
   names.all (fun x => decide (x.mw.length = names.length) && decide (x.hm.length = names.length)) &&
   nodupB (names.map (·.str)) &&
   nodupB (srvs.map (·.1)) &&
